@@ -494,37 +494,41 @@ def C06(ck):
 
 # ------------------------------------------------------------------------------------------------
 def _tables_in_codecs(ck, T):
-    """The table that counts is the one a codec builds from the histogram IT prepared and then transmits: ANS0, ANS1 and RANGE on the
-    case space of the entropy driver (every log range and chunk size, several blocks through one encoder object, exact histograms).
-    KzEntropyFrame shows that encoder and decoder agree iff that table is valid, so a block that does not come back exactly convicts it."""
+    """The calls that count: every call of NormalizeFrequencies that ANS0, ANS1 and RANGE make while they encode the case space of the
+    entropy driver (real data of every shape, every log range and chunk size, several blocks through one object), observed by the hook
+    in the entropy package (histogram on entry, table and alphabet on return) and judged by Trace_Norm like the directed families.
+    Calls whose total is not the sum of the histogram are outside the statement (they are the caller's defect and C12 reports its
+    consequence); they are counted in the evidence."""
     kzh = kzv.build_harness()
     base = os.path.join(kzv.BUILD, 'tlc', 'enttab_%d' % os.getpid())
     cmd = [kzh, 'entropy', '-n', str(3000 if T else 300), '-seed', str(ck.seed), '-out', base + '.ndjson', '-sum', base + '.sum', '-par', str(kzv.NCPU),
-           '-codecs', 'ANS0,ANS1,RANGE']
+           '-codecs', 'ANS0,ANS1,RANGE', '-tables', base + '.tab.ndjson', '-maxtables', str(20000 if T else 1500)]
     if T:
         cmd.append('-thorough')
     rc, so, se, dt = kzv.run(cmd, timeout=3 * 3600)
     if rc != 0:
         raise kzv.ToolFailure('entropy driver failed: ' + se[-1500:])
-    res = kzv.validate_trace('Trace_Entropy', base + '.ndjson', timeout=1800)
+    tr = kzv.read_ndjson(base + '.tab.ndjson')
+    summ = [e for e in tr if e.get('ev') == 'NORMSUM']
+    if not summ or summ[0]['distinct'] < 100:
+        raise kzv.ToolFailure('the hook in NormalizeFrequencies recorded no calls (harness built without the verif tag?)')
+    res = kzv.validate_trace('Trace_Norm', base + '.tab.ndjson', timeout=3000)
     if res.error or res.violated:
-        raise kzv.ToolFailure('Trace_Entropy failed: %s %s' % (res.error, res.violated))
-    tr = kzv.read_ndjson(base + '.ndjson')
-    seen = set()
+        raise kzv.ToolFailure('Trace_Norm failed on codec calls: %s %s' % (res.error, res.violated))
+    seen = 0
     for e, pred in _violations_from(res.out, tr):
-        key = (e['codec'], e.get('args', ''))
-        if key in seen or len(seen) >= 6:
-            continue
-        seen.add(key)
-        ck.violation({'kind': 'codec_table', 'pred': 'C16_table_used_by_codec_invalid', 'how': pred, 'codec': e['codec'], 'len': e['len'], 'fam': e['fam'],
-                      'args': e.get('args', ''), 'msg': e.get('msg', '')[:120]},
-                     {'cmd': 'entropy', 'case': json.loads(e['desc']), 'event': {k: v for k, v in e.items() if k != 'desc'}}, name='codec_table')
-    n = len([e for e in tr if e.get('ev') == 'ENT'])
-    ck.cov['evaluations'] += n
-    ck.cov['traces_validated_against_impl'] += n
-    ck.cov['codec_level_blocks'] = n
+        if seen >= 5:
+            break
+        seen += 1
+        ck.violation({'kind': 'norm', 'pred': pred, 'src': 'call made by a codec', 'in': e['in'][:40], 'scale': e['scale'], 'out': e['out'][:40], 'alphaOK': e['alphaOK']},
+                     {'cmd': 'norm', 'event': e}, name='codec_table')
+    ck.cov['evaluations'] += summ[0]['distinct']
+    ck.cov['traces_validated_against_impl'] += summ[0]['distinct']
+    ck.cov['codec_calls_observed'] = summ[0]['calls']
+    ck.cov['codec_calls_distinct_judged'] = summ[0]['distinct']
+    ck.cov['codec_calls_with_inconsistent_total'] = summ[0]['inconsistentTotal']
     ck.cov['states'] += res.distinct
-    for f in (base + '.ndjson', base + '.sum'):
+    for f in (base + '.ndjson', base + '.sum', base + '.tab.ndjson'):
         if os.path.exists(f):
             os.remove(f)
 
